@@ -1,7 +1,8 @@
 Require Extraction.
 Require Import ExtrOcamlBasic.
 From LH Require Import Base.Bytes Base.Res Model.AnnLexer Model.AnnAst Model.AnnParser Model.AnnPrint Spec.AnnGrammar.
-Extraction "c16model.ml" extract_anchor kind_code fuel_of ann_parse_line parse_type parse_fragment type_convert_str
+Extraction "c16model.ml" extract_anchor kind_code fuel_of ann_parse_line parse_type parse_fragment parse_fragment_gen type_convert_str
+  type_convert_str_fx deployed all_fixes no_fixes fx_const fx_union fx_fun fx_cont
   show_type show_type_plain show_line show_line_plain doc_type doc_stat embed_type embed_type_plain embed_line
   embed_line_plain abs flat
   enum_with_comment stat_nested_array has_nested_array has_fun has_const has_paren_item has_union_under_array
